@@ -236,38 +236,6 @@ theorem split_header_path (vt rest : List Seg) (k : Nat) (hv : ∀ n ∈ vt, Adm
       filter_ne_nil_of_all rest (fun s hs => (hr s hs).1)]
     simp
 
-/-! ### a header text followed by a generated path -/
-
-theorem noClimb_admissible (d : Nat) (xs tail : List Seg) (h : ∀ n ∈ xs, AdmissibleName n)
-    (ht : noClimbFrom (d + xs.length) tail = true) : noClimbFrom d (xs ++ tail) = true := by
-  induction xs generalizing d with
-  | nil => simpa using ht
-  | cons x r ih =>
-    have hc := (h x (by simp)).clean
-    have h1 : ¬ (x = [] ∨ x = ['.']) := fun e => e.elim hc.1 hc.2.1
-    have h2 : ¬ x = dd := hc.2.2
-    simp only [List.cons_append, noClimbFrom, h1, h2, if_false]
-    apply ih (d + 1) (fun n hn => h n (by simp [hn]))
-    have : d + 1 + r.length = d + (x :: r).length := by simp; omega
-    rw [this]; exact ht
-
-/-- whatever the spelling of the header text `V`: followed by `/a/b/` it splits into the header's segments and
-then `a`, `b` (the generated path has no `..` that could climb into the header) -/
-theorem split_vroot_path (V : Text) (rest : List Seg) (hr : ∀ n ∈ rest, AdmissibleName n) :
-    splitPathInfo (V ++ '/' :: slashed rest) = splitPathInfo V ++ rest := by
-  have hsplit : splitOn '/' (slashed rest) = rest ++ [[]] := by
-    have := splitOn_slashed rest [] (fun s hs => (hr s hs).noSlash)
-    simpa [splitOn] using this
-  rw [splitPathInfo_eq, splitPathInfo_eq, splitOn_append_sep, hsplit,
-    normSegs_append_noClimb _ _ (noClimb_admissible 0 rest [[]] hr (by simp [noClimbFrom]))]
-  congr 1
-  rw [normSegs_filter _ (by
-    intro s hs
-    rcases List.mem_append.mp hs with m | m
-    · exact .inr (hr s m).clean
-    · exact .inl (by simpa using m)), List.filter_append, filter_ne_nil_of_all rest (fun s hs => (hr s hs).1)]
-  simp
-
 /-! ### requesting a generated URL -/
 
 theorem mem_slashed (xs : List Text) (c : Char) (h : c ∈ slashed xs) : c = '/' ∨ ∃ x ∈ xs, c ∈ x := by
@@ -306,11 +274,10 @@ theorem traverser_vroot (root : Tree) (hdr : Bytes) (vt rest : List Seg) (hv : h
   | none => simp [hd] at hv
   | some V =>
     have s1 : splitPathInfo V = vt := by simpa [hd] using hv
-    have s2 := split_vroot_path V rest hr
-    rw [s1] at s2
+    have s2 := split_slashed rest hr
     simp only [traverser, requestPath, Option.getD_some]
     have hdd : decodePathInfo (utf8Enc ('/' :: slashed rest)) = some ('/' :: slashed rest) := utf8Dec_utf8Enc _
-    simp only [hdd, hd, reduceCtorEq, if_false, traverseText, vpath_shortcut]
+    simp only [hdd, hd, reduceCtorEq, if_false, traverseText]
     simp only [s1, s2, walk_outcome, deepest_of_walkable root _ hw, specBack]
     by_cases hvt : vt = []
     · subst hvt; simp
